@@ -11,6 +11,8 @@ package c10
 // (NDJSON) and validated by Trace_UdpJob.tla afterwards.
 
 import (
+	"bytes"
+	"crypto/sha256"
 	"encoding/binary"
 	"encoding/json"
 	"errors"
@@ -52,6 +54,28 @@ type engInput struct {
 	Perturb       bool   `json:"perturb"`
 	Load          int    `json:"load"`
 	FallbackRound int    `json:"fallbackRound"`
+	// C10 extensions: the OPT provenance predicate, the hygiene sweep (cookie
+	// queries, then cookie-less ones, over every slab) and the TLC-enumerated
+	// size-class / EDNS scripts played on stream connections
+	OptCheck  bool       `json:"optCheck"`
+	Sweep     int        `json:"sweep"`
+	Scripts   []scriptIn `json:"scripts"`
+	ScriptPar int        `json:"scriptPar"`
+}
+
+// scriptIn is one behaviour of TcpConn.tla's ScriptSpec, projected: the frames
+// the client pipelines, each with the size class of its reply, its EDNS shape,
+// and whether the server had blocked (everything flushed) before it arrived.
+type scriptIn struct {
+	Fam    string        `json:"fam"`
+	Frames []scriptFrame `json:"frames"`
+}
+
+type scriptFrame struct {
+	Kind string `json:"kind"` // hit | miss ("" = hit)
+	Sz   string `json:"sz"`   // small | large | huge
+	Opt  string `json:"opt"`  // none | plain | cookie
+	Brk  bool   `json:"brk"`  // written only after every earlier reply arrived
 }
 
 const (
@@ -71,10 +95,165 @@ type query struct {
 	wire   []byte
 	opt    bool
 	got    atomic.Int32
+	// what the query's own OPT carried (the only source a reply's OPT may draw on)
+	ep optProfile
+	// sz is the size class of the answer f(question) makes
+	sz string
 }
 
-// buildQuery makes one packet of the given kind for (client, seq).
+// optProfile is the EDNS a query carries.
+type optProfile struct {
+	has  bool
+	ck   []byte // 8-byte client cookie unique to (client, query); nil = none
+	do   bool
+	nsid bool
+	ka   bool // edns-tcp-keepalive (stream transports only)
+	size uint16
+	pad  int
+}
+
+func (p optProfile) kind() string {
+	switch {
+	case !p.has:
+		return "none"
+	case p.ck != nil:
+		return "cookie"
+	}
+	return "plain"
+}
+
+// clientCookie is the client cookie of (client, query): 8 bytes derived from the
+// client id, the query id and the query's sequence number -- nobody else sends them.
+func clientCookie(client int, id uint16, seq int) []byte {
+	h := sha256.Sum256([]byte(fmt.Sprintf("c10-cookie|%d|%d|%d", client, id, seq)))
+	return h[:8]
+}
+
+// ownUDPSize is an advertised size no server constant shares: odd, 1233..4093.
+func ownUDPSize(client int, id uint16, seq int) uint16 {
+	h := sha256.Sum256([]byte(fmt.Sprintf("c10-size|%d|%d|%d", client, id, seq)))
+	return uint16(1233+(int(binary.BigEndian.Uint16(h[:2]))%1431)*2) | 1
+}
+
+// pickOpt draws the EDNS shape of one query: a third without OPT, a third with a
+// cookie-less OPT, a third with a client cookie; DO / NSID / keepalive / sizes mixed in.
+func pickOpt(rng *rand.Rand, client int, id uint16, seq int, stream bool, shape string) optProfile {
+	var p optProfile
+	if shape == "" {
+		shape = []string{"none", "plain", "cookie"}[rng.Intn(3)]
+	}
+	if shape == "none" {
+		return p
+	}
+	p.has = true
+	if shape == "cookie" {
+		p.ck = clientCookie(client, id, seq)
+	}
+	p.do = rng.Intn(5) == 0
+	p.nsid = rng.Intn(4) == 0
+	p.ka = stream && rng.Intn(5) == 0
+	switch rng.Intn(4) {
+	case 0:
+		p.size = 1232
+	case 1:
+		p.size = []uint16{512, 1400, 4096}[rng.Intn(3)]
+	default:
+		p.size = ownUDPSize(client, id, seq)
+	}
+	return p
+}
+
+func (p optProfile) apply(m *dns.Msg, rng *rand.Rand) {
+	if !p.has {
+		return
+	}
+	opt := &dns.OPT{Hdr: dns.RR_Header{Name: ".", Rrtype: dns.TypeOPT}}
+	opt.SetUDPSize(p.size)
+	if p.do {
+		opt.SetDo()
+	}
+	if p.pad > 0 {
+		opt.Option = append(opt.Option, &dns.EDNS0_PADDING{Padding: make([]byte, p.pad)})
+	}
+	if p.ck != nil {
+		ck := fmt.Sprintf("%x", p.ck)
+		if rng.Intn(4) == 0 {
+			// a client echoing some server half it remembers: still this query's own bytes
+			h := sha256.Sum256(p.ck)
+			ck += fmt.Sprintf("%x", h[:8+8*rng.Intn(4)])
+		}
+		opt.Option = append(opt.Option, &dns.EDNS0_COOKIE{Code: dns.EDNS0COOKIE, Cookie: ck})
+	}
+	if p.nsid {
+		opt.Option = append(opt.Option, &dns.EDNS0_NSID{Code: dns.EDNS0NSID})
+	}
+	if p.ka {
+		opt.Option = append(opt.Option, &dns.EDNS0_TCP_KEEPALIVE{Code: dns.EDNS0TCPKEEPALIVE})
+	}
+	m.Extra = append(m.Extra, opt)
+}
+
+// optCheck switches the OPT provenance predicate on (C10 runs; the C11 engine walk judges its own).
+var optCheck atomic.Bool
+
+// bareOPT counts replies that carry an OPT although their query had none, with
+// nothing in it that stems from any request (no option, the server's own size):
+// not a provenance failure -- the reply holds no byte of anybody else -- but a
+// difference worth reporting (RFC 6891 7: no OPT unless the query had one).
+var (
+	bareOPT        atomic.Int64
+	bareOPTExample atomic.Value
+)
+
+// checkOPT is ReplyOptIsOwn on one reply: everything in its OPT derives from the
+// query it answers -- never from a request served earlier on the same recycled
+// job.  A COOKIE option only if this query carried one, starting with this
+// query's own client cookie; NSID / edns-tcp-keepalive only if this query asked;
+// never the (distinctive) size another query advertised.
+func checkOPT(q *query, b []byte) string {
+	f, ok := wireOPT(b)
+	if !ok || !f.has {
+		return ""
+	}
+	if f.udp != q.ep.size && f.udp&1 == 1 && f.udp >= 1233 && f.udp <= 4095 {
+		return fmt.Sprintf("reply OPT advertises %d bytes: the size another query advertised (this one advertised %d)", f.udp, q.ep.size)
+	}
+	if !q.ep.has && len(f.opts) == 0 {
+		if bareOPT.Add(1) == 1 {
+			bareOPTExample.Store(fmt.Sprintf("%s %s (no OPT in the query) -> reply rcode %d with OPT udp=%d do=%v", q.kind, q.name, b[3]&0x0F, f.udp, f.do))
+		}
+	}
+	for _, o := range f.opts {
+		switch o.code {
+		case dns.EDNS0COOKIE:
+			if q.ep.ck == nil {
+				return fmt.Sprintf("COOKIE option %x in the reply to a query that carried no cookie (%s): the client half is somebody else's", o.data,
+					map[bool]string{true: "an OPT without one", false: "no OPT at all"}[q.ep.has])
+			}
+			if len(o.data) < 8 || !bytes.Equal(o.data[:8], q.ep.ck) {
+				return fmt.Sprintf("COOKIE option %x does not start with this query's client cookie %x", o.data, q.ep.ck)
+			}
+		case dns.EDNS0NSID:
+			if !q.ep.nsid {
+				return fmt.Sprintf("NSID option %q in the reply to a query that did not ask for it", o.data)
+			}
+		case dns.EDNS0TCPKEEPALIVE:
+			if !q.ep.ka {
+				return "edns-tcp-keepalive option in the reply to a query that did not send one"
+			}
+		}
+	}
+	return ""
+}
+
+// buildQuery makes one packet of the given kind for (client, seq) on a datagram transport.
 func buildQuery(rng *rand.Rand, kind string, client, seq, round int, id uint16) *query {
+	return buildQueryOpt(rng, kind, client, seq, round, id, false, "")
+}
+
+// buildQueryOpt makes one packet of the given kind; shape fixes its EDNS shape
+// (none | plain | cookie), "" draws one.
+func buildQueryOpt(rng *rand.Rand, kind string, client, seq, round int, id uint16, stream bool, shape string) *query {
 	q := &query{id: id, kind: kind, qtype: dns.TypeA, expect: expAnswer}
 	if rng.Intn(4) == 0 {
 		q.qtype = dns.TypeTXT
@@ -83,6 +262,12 @@ func buildQuery(rng *rand.Rand, kind string, client, seq, round int, id uint16) 
 	switch kind {
 	case "hit":
 		q.name = fmt.Sprintf("h-k%d.%s", rng.Intn(8), zone)
+	case "big": // a primed name whose TXT answer fits the drain buffer only when it is empty
+		q.name, q.qtype = fmt.Sprintf("b-k%d.%s", rng.Intn(4), zone), dns.TypeTXT
+	case "huge": // a primed name whose TXT answer is larger than the whole drain buffer
+		q.name, q.qtype = fmt.Sprintf("g-k%d.%s", rng.Intn(4), zone), dns.TypeTXT
+	case "hugeMiss":
+		q.name, q.qtype = uniq("g"), dns.TypeTXT
 	case "miss":
 		q.name = uniq("m")
 	case "shared":
@@ -124,16 +309,19 @@ func buildQuery(rng *rand.Rand, kind string, client, seq, round int, id uint16) 
 	m := new(dns.Msg)
 	m.SetQuestion(q.name, q.qtype)
 	m.Id = id
+	q.sz = sizeClassOfAnswer(q.name, q.qtype)
 	if kind == "large" {
-		opt := &dns.OPT{Hdr: dns.RR_Header{Name: ".", Rrtype: dns.TypeOPT}}
-		opt.SetUDPSize(1232)
-		opt.Option = append(opt.Option, &dns.EDNS0_PADDING{Padding: make([]byte, 2200)})
-		m.Extra = append(m.Extra, opt)
-		q.opt = true
-	} else if rng.Intn(2) == 0 {
-		m.SetEdns0(1232, false)
-		q.opt = true
+		// a query frame of the large job class: 2200 bytes of padding in its OPT
+		if shape == "" || shape == "none" {
+			shape = []string{"plain", "cookie"}[rng.Intn(2)]
+		}
+		q.ep = pickOpt(rng, client, id, seq, stream, shape)
+		q.ep.pad = 2200
+	} else {
+		q.ep = pickOpt(rng, client, id, seq, stream, shape)
 	}
+	q.ep.apply(m, rng)
+	q.opt = q.ep.has
 	if kind == "fallback" {
 		// a non-OPT additional record: not strict-path eligible, decoded fallback
 		m.Extra = append(m.Extra, &dns.A{Hdr: dns.RR_Header{Name: "x." + zone, Rrtype: dns.TypeA,
@@ -209,6 +397,11 @@ func checkReply(q *query, b []byte) string {
 	for _, rr := range m.Extra {
 		if _, ok := rr.(*dns.OPT); !ok {
 			return "reply carries a non-OPT additional record: " + rr.String()
+		}
+	}
+	if optCheck.Load() {
+		if why := checkOPT(q, b); why != "" {
+			return why
 		}
 	}
 	if q.expect == expServfail {
@@ -393,10 +586,16 @@ func (c *udpClient) run(rng *rand.Rand, server *net.UDPAddr, rounds, burst int, 
 type tcpScript struct {
 	queries []*query
 	ending  string // read-all | panicHead | shortFrame | disconnect
+	// breaks[i]: query i is written only after every earlier answerable query was
+	// answered (the server has flushed and blocked); nil = cut at random offsets
+	breaks []bool
+	label  string
+	linger time.Duration
 }
 
 var tcpMix = []string{"hit", "hit", "miss", "miss", "shared", "delay", "fallback", "large", "large",
-	"silentTail", "panicTail", "writeHandoff", "qr", "badop", "badcnt", "badbody"}
+	"silentTail", "panicTail", "writeHandoff", "qr", "badop", "badcnt", "badbody",
+	"hit", "big", "huge", "huge"}
 
 func frame(b []byte) []byte {
 	out := make([]byte, 2+len(b))
@@ -413,10 +612,11 @@ func runTCPConn(in *engInput, res *vh.Result, rng *rand.Rand, addr string, clien
 		client, connNo, idAlloc, round, counters)
 }
 
-// runStreamConn is runTCPConn over any framed stream transport (plain TCP, DoT).
+// runStreamConn is runTCPConn over any framed stream transport (plain TCP, DoT):
+// a random mix of kinds, written in chunks cut at random offsets.
 func runStreamConn(in *engInput, res *vh.Result, rng *rand.Rand, proto string, dial func() (net.Conn, error),
 	client, connNo int, idAlloc func() (uint16, bool), round int, counters *tcpCounters) {
-	var sc tcpScript
+	sc := tcpScript{label: "random", linger: 60 * time.Millisecond}
 	n := 1 + rng.Intn(in.TCPFrames)
 	for i := 0; i < n; i++ {
 		id, ok := idAlloc()
@@ -424,40 +624,109 @@ func runStreamConn(in *engInput, res *vh.Result, rng *rand.Rand, proto string, d
 			break
 		}
 		kind := tcpMix[rng.Intn(len(tcpMix))]
-		sc.queries = append(sc.queries, buildQuery(rng, kind, 1000+client, connNo*100+i, round, id))
+		if i > 0 && sc.queries[i-1].kind == "hit" && rng.Intn(3) == 0 {
+			kind = "huge" // a small reply is staged when a huge one is produced
+		}
+		sc.queries = append(sc.queries, buildQueryOpt(rng, kind, 1000+client, connNo*100+i, round, id, true, ""))
 	}
 	sc.ending = []string{"read-all", "read-all", "read-all", "panicHead", "shortFrame", "disconnect"}[rng.Intn(6)]
 	if sc.ending == "panicHead" {
 		if id, ok := idAlloc(); ok {
-			sc.queries = append(sc.queries, buildQuery(rng, "panicHead", 1000+client, connNo*100+99, round, id))
+			sc.queries = append(sc.queries, buildQueryOpt(rng, "panicHead", 1000+client, connNo*100+99, round, id, true, ""))
 		}
 	}
+	playStream(in, res, rng, proto, dial, client, connNo, &sc, counters)
+}
+
+// scriptQueries turns one projected TcpConn.tla behaviour into queries: every
+// frame a cache hit (so nothing flushes the drain buffer behind the model's
+// back) whose answer is of the frame's size class, with the frame's EDNS shape.
+func scriptQueries(rng *rand.Rand, frames []scriptFrame, client, connNo int, idAlloc func() (uint16, bool)) ([]*query, []bool) {
+	var qs []*query
+	var brk []bool
+	for i, f := range frames {
+		id, ok := idAlloc()
+		if !ok {
+			break
+		}
+		kind := "hit"
+		switch {
+		case f.Kind == "miss":
+			kind = "miss"
+		case f.Sz == "large":
+			kind = "big"
+		case f.Sz == "huge":
+			kind = "huge"
+		}
+		q := buildQueryOpt(rng, kind, 1000+client, connNo*100+i, 0, id, true, f.Opt)
+		if q.ep.do {
+			// DO is part of the cache identity: keep scripted frames on the primed entries
+			q = rebuildWithoutDO(rng, q, 1000+client)
+		}
+		qs = append(qs, q)
+		brk = append(brk, f.Brk && i > 0)
+	}
+	return qs, brk
+}
+
+func rebuildWithoutDO(rng *rand.Rand, q *query, client int) *query {
+	m := new(dns.Msg)
+	m.SetQuestion(q.name, q.qtype)
+	m.Id = q.id
+	q.ep.do = false
+	q.ep.apply(m, rng)
+	q.wire, _ = m.Pack()
+	return q
+}
+
+// playStream plays one connection and checks: whole frames, one per answerable
+// query, in query order, each carrying its own query's bytes.
+func playStream(in *engInput, res *vh.Result, rng *rand.Rand, proto string, dial func() (net.Conn, error),
+	client, connNo int, sc *tcpScript, counters *tcpCounters) {
+	type chunk struct {
+		firstQ int
+		b      []byte
+	}
 	var stream []byte
-	for _, q := range sc.queries {
+	var chunks []chunk
+	for i, q := range sc.queries {
 		stream = append(stream, frame(q.wire)...)
+		if sc.breaks != nil {
+			if i == 0 || sc.breaks[i] {
+				chunks = append(chunks, chunk{firstQ: i})
+			}
+			chunks[len(chunks)-1].b = append(chunks[len(chunks)-1].b, frame(q.wire)...)
+		}
 	}
 	if sc.ending == "shortFrame" {
 		stream = append(stream, 0, 5, 1, 2, 3, 4, 5)
 	}
 	var expected []*query
-	for _, q := range sc.queries {
+	owedBefore := make([]int, len(sc.queries)+1) // answerable queries among the first i
+	for i, q := range sc.queries {
+		owedBefore[i+1] = owedBefore[i]
 		if q.expect != expNone {
 			expected = append(expected, q)
+			owedBefore[i+1]++
 		}
 	}
 	violate := func(key, what string, extra map[string]any) {
-		rep := map[string]any{"driver": "c10-engine", "config": in, "client": client, "conn": connNo,
-			"ending": sc.ending}
+		rep := map[string]any{"driver": "c10-engine", "config": in.Name, "mode": in.Mode, "client": client, "conn": connNo,
+			"ending": sc.ending, "script": sc.label, "seed": vh.Seed()}
 		var qs []map[string]any
-		for _, q := range sc.queries {
-			qs = append(qs, map[string]any{"id": q.id, "kind": q.kind, "name": q.name, "qtype": q.qtype,
-				"wire": fmt.Sprintf("%x", q.wire)})
+		for i, q := range sc.queries {
+			e := map[string]any{"id": q.id, "kind": q.kind, "name": q.name, "qtype": q.qtype, "opt": q.ep.kind(),
+				"sz": q.sz, "wire": fmt.Sprintf("%x", q.wire)}
+			if sc.breaks != nil {
+				e["afterBlock"] = sc.breaks[i]
+			}
+			qs = append(qs, e)
 		}
-		rep["script"] = qs
+		rep["queries"] = qs
 		for k, v := range extra {
 			rep[k] = v
 		}
-		res.Violate(proto+"/"+key, fmt.Sprintf("[%s] %s client %d conn %d: %s", in.Name, strings.ToUpper(proto), client, connNo, what), rep)
+		res.Violate(proto+"/"+key, fmt.Sprintf("[%s] %s client %d conn %d (%s): %s", in.Name, strings.ToUpper(proto), client, connNo, sc.label, what), rep)
 	}
 
 	conn, err := dial()
@@ -468,18 +737,46 @@ func runStreamConn(in *engInput, res *vh.Result, rng *rand.Rand, proto string, d
 	defer conn.Close()
 	counters.conns.Add(1)
 
-	// writer: the pipelined stream in chunks cut at arbitrary offsets (half prefixes included)
+	var got atomic.Int32
+	rdone := make(chan struct{})
 	wdone := make(chan struct{})
 	go func() {
 		defer close(wdone)
+		write := func(b []byte) bool {
+			_ = conn.SetWriteDeadline(time.Now().Add(5 * time.Second))
+			_, err := conn.Write(b)
+			return err == nil
+		}
+		if sc.breaks != nil {
+			// scripted: one write per chunk; a chunk waits until every reply owed so far has arrived,
+			// i.e. the server flushed and went back to blocking on this connection
+			for ci, c := range chunks {
+				if ci > 0 {
+					dl := time.Now().Add(5 * time.Second)
+					for int(got.Load()) < owedBefore[c.firstQ] && time.Now().Before(dl) {
+						select {
+						case <-rdone:
+							return
+						default:
+						}
+						time.Sleep(100 * time.Microsecond)
+					}
+					time.Sleep(300 * time.Microsecond)
+				}
+				if !write(c.b) {
+					return
+				}
+			}
+			return
+		}
+		// the pipelined stream in chunks cut at arbitrary offsets (half prefixes included)
 		rest := stream
 		for len(rest) > 0 {
 			k := len(rest)
 			if rng.Intn(3) != 0 {
 				k = 1 + rng.Intn(len(rest))
 			}
-			_ = conn.SetWriteDeadline(time.Now().Add(5 * time.Second))
-			if _, err := conn.Write(rest[:k]); err != nil {
+			if !write(rest[:k]) {
 				return
 			}
 			rest = rest[k:]
@@ -495,25 +792,38 @@ func runStreamConn(in *engInput, res *vh.Result, rng *rand.Rand, proto string, d
 		time.Sleep(time.Duration(rng.Intn(3)) * time.Millisecond)
 	}
 
-	got := 0
 	cut := false
 	ob := tcpObs{Ev: "conn", Conn: fmt.Sprintf("%s/%s/c%d/n%d", in.Name, proto, client, connNo), Whole: true,
-		Ending: sc.ending, Kinds: []string{}, IDs: []int{}, Recv: []int{}}
-	for _, q := range sc.queries {
+		Ending: sc.ending, Script: sc.label, Kinds: []string{}, IDs: []int{}, Sizes: []string{}, Opts: []string{},
+		Cks: []string{}, Brk: []bool{}, WN: []bool{}, WK: []bool{}, Recv: []int{}, RSz: []string{}, ROpt: []bool{},
+		RCk: []string{}, ROk: []bool{}, RN: []bool{}, RK: []bool{}}
+	for i, q := range sc.queries {
 		ob.Kinds = append(ob.Kinds, modelKind(q.kind))
 		ob.IDs = append(ob.IDs, int(q.id))
+		ob.Sizes = append(ob.Sizes, q.sz)
+		ob.Opts = append(ob.Opts, q.ep.kind())
+		ck := ""
+		if q.ep.ck != nil {
+			ck = fmt.Sprintf("%x", q.ep.ck)
+		}
+		ob.Cks = append(ob.Cks, ck)
+		ob.Brk = append(ob.Brk, sc.breaks != nil && sc.breaks[i])
+		ob.WN = append(ob.WN, q.ep.nsid)
+		ob.WK = append(ob.WK, q.ep.ka)
 	}
 	defer func() {
-		ob.Done = got == len(expected)
+		close(rdone)
+		ob.Done = int(got.Load()) == len(expected)
 		counters.mu.Lock()
 		counters.obs = append(counters.obs, ob)
 		counters.mu.Unlock()
 	}()
 	var hdr [2]byte
 	for {
+		g := int(got.Load())
 		wait := 6 * time.Second
-		if got == len(expected) {
-			wait = 60 * time.Millisecond // nothing more is owed: listen briefly for an unsolicited frame
+		if g == len(expected) {
+			wait = sc.linger // nothing more is owed: listen briefly for an unsolicited frame
 		}
 		if sc.ending == "disconnect" {
 			wait = 2 * time.Millisecond
@@ -522,7 +832,7 @@ func runStreamConn(in *engInput, res *vh.Result, rng *rand.Rand, proto string, d
 		if _, err := io.ReadFull(conn, hdr[:]); err != nil {
 			var ne net.Error
 			if errors.As(err, &ne) && ne.Timeout() {
-				if got < len(expected) && sc.ending != "disconnect" {
+				if g < len(expected) && sc.ending != "disconnect" {
 					counters.stalled.Add(1)
 				}
 			} else {
@@ -549,13 +859,21 @@ func runStreamConn(in *engInput, res *vh.Result, rng *rand.Rand, proto string, d
 		} else {
 			ob.Recv = append(ob.Recv, -1)
 		}
-		if got >= len(expected) {
+		f, _ := wireOPT(body)
+		ob.RSz = append(ob.RSz, sizeClassOfLen(l))
+		ob.ROpt = append(ob.ROpt, f.has)
+		ob.RCk = append(ob.RCk, f.cookieOf())
+		ob.RN = append(ob.RN, f.hasOption(dns.EDNS0NSID))
+		ob.RK = append(ob.RK, f.hasOption(dns.EDNS0TCPKEEPALIVE))
+		ob.ROk = append(ob.ROk, l >= 12 && body[3]&0x0F == 0 && binary.BigEndian.Uint16(body[6:]) > 0)
+		if g >= len(expected) {
 			violate("unsolicited", fmt.Sprintf("received a frame after every answerable query was answered: % x", body[:min(l, 48)]),
-				map[string]any{"frame": fmt.Sprintf("%x", body)})
+				map[string]any{"frame": fmt.Sprintf("%x", body[:min(l, 600)])})
 			break
 		}
-		q := expected[got]
-		got++
+		q := expected[g]
+		g++
+		got.Store(int32(g))
 		if l < 12 || binary.BigEndian.Uint16(body) != q.id {
 			// is it another query of this connection (order), or foreign bytes (cross-talk)?
 			what := "a frame that is none of this connection's replies"
@@ -563,13 +881,13 @@ func runStreamConn(in *engInput, res *vh.Result, rng *rand.Rand, proto string, d
 				fid := binary.BigEndian.Uint16(body)
 				for _, o := range sc.queries {
 					if o.id == fid {
-						what = fmt.Sprintf("the reply to id %d (%s) where the reply to id %d (%s) is due: out of query order, or a silent query was answered",
-							o.id, o.kind, q.id, q.kind)
+						what = fmt.Sprintf("the %s reply to id %d (%s) where the %s reply to id %d (%s) is due: out of query order, or a silent query was answered",
+							sizeClassOfLen(l), o.id, o.kind, q.sz, q.id, q.kind)
 					}
 				}
 			}
-			violate("order", fmt.Sprintf("frame %d is %s: % x", got, what, body[:min(l, 48)]),
-				map[string]any{"frame": fmt.Sprintf("%x", body), "position": got})
+			violate("order", fmt.Sprintf("frame %d is %s: % x", g, what, body[:min(l, 48)]),
+				map[string]any{"frame": fmt.Sprintf("%x", body[:min(l, 600)]), "position": g})
 			break
 		}
 		if why := checkReply(q, body); why != "" {
@@ -577,25 +895,49 @@ func runStreamConn(in *engInput, res *vh.Result, rng *rand.Rand, proto string, d
 				counters.rcFails.Add(1)
 				continue
 			}
-			violate("content", fmt.Sprintf("frame %d, reply to id %d (%s %s): %s", got, q.id, q.kind, q.name, why),
-				map[string]any{"frame": fmt.Sprintf("%x", body), "position": got})
+			violate("content", fmt.Sprintf("frame %d, reply to id %d (%s %s, %s): %s", g, q.id, q.kind, q.name, q.ep.kind(), why),
+				map[string]any{"frame": fmt.Sprintf("%x", body[:min(l, 600)]), "position": g})
 			break
 		}
+		if q.sz != "small" {
+			counters.bigOK.Add(1)
+		}
 	}
-	counters.answered.Add(int64(got))
+	g := int(got.Load())
+	counters.answered.Add(int64(g))
 	counters.expected.Add(int64(len(expected)))
-	if got == len(expected) {
+	if g == len(expected) {
 		counters.complete.Add(1)
 	} else if cut {
 		counters.cut.Add(1)
 	}
-	res.Case(proto + "/" + sc.ending)
+	if sc.breaks != nil {
+		res.Case(proto + "/" + sc.label + "/" + scriptKey(sc))
+	} else {
+		res.Case(proto + "/" + sc.ending)
+	}
+}
+
+// scriptKey names a scripted connection by its size-class / EDNS order and chunking.
+func scriptKey(sc *tcpScript) string {
+	var sb strings.Builder
+	for i, q := range sc.queries {
+		if i > 0 {
+			if sc.breaks[i] {
+				sb.WriteByte('|')
+			} else {
+				sb.WriteByte(',')
+			}
+		}
+		sb.WriteString(q.sz[:1] + q.ep.kind()[:1])
+	}
+	return sb.String()
 }
 
 type tcpCounters struct {
-	conns, dialFail, frames, answered, expected, complete, cut, stalled, rcFails atomic.Int64
-	mu                                                                           sync.Mutex
-	obs                                                                          []tcpObs
+	conns, dialFail, frames, answered, expected, complete, cut, stalled, rcFails, bigOK atomic.Int64
+	mu                                                                                  sync.Mutex
+	obs                                                                                 []tcpObs
 }
 
 // tcpObs is what one connection's client saw, for Trace_TcpConn.tla.
@@ -608,6 +950,23 @@ type tcpObs struct {
 	Whole  bool     `json:"whole"`
 	Done   bool     `json:"done"` // the client read until nothing more was owed
 	Ending string   `json:"ending"`
+	Script string   `json:"script"` // random | sweep/... | script/<family>
+	// per query: the size class of the answer it asks for, its EDNS shape, its client
+	// cookie ("" = none), whether it was written only after the server had blocked
+	Sizes []string `json:"sizes"`
+	Opts  []string `json:"opts"`
+	Cks   []string `json:"cks"`
+	Brk   []bool   `json:"brk"`
+	WN    []bool   `json:"wn"` // the query asks for NSID
+	WK    []bool   `json:"wk"` // the query sent edns-tcp-keepalive
+	// per frame received: its size class, whether it carries an OPT, the client half of
+	// its COOKIE option ("" = none), whether it is a NOERROR answer
+	RSz  []string `json:"rsz"`
+	ROpt []bool   `json:"ropt"`
+	RCk  []string `json:"rck"`
+	ROk  []bool   `json:"rok"`
+	RN   []bool   `json:"rn"` // the frame carries an NSID option
+	RK   []bool   `json:"rk"` // ... an edns-tcp-keepalive option
 }
 
 func modelKind(k string) string {
@@ -623,6 +982,123 @@ func modelKind(k string) string {
 }
 
 // ---------------------------------------------------------------------------
+
+// primeBig asks for every large / huge TXT name once, sequentially, until each was answered whole.
+func primeBig(in *engInput, res *vh.Result, rng *rand.Rand, proto string, dial func() (net.Conn, error),
+	client int, alloc func() (uint16, bool), counters *tcpCounters) string {
+	for try := 0; try < 4; try++ {
+		sc := tcpScript{ending: "read-all", label: "prime", linger: 5 * time.Millisecond}
+		for k := 0; k < 4; k++ {
+			for _, pfx := range []string{"b", "g"} {
+				id, _ := alloc()
+				q := buildQueryOpt(rng, "big", 1000+client, k, 0, id, true, "none")
+				q.name = fmt.Sprintf("%s-k%d.%s", pfx, k, zone)
+				q.sz = sizeClassOfAnswer(q.name, q.qtype)
+				m := new(dns.Msg)
+				m.SetQuestion(q.name, q.qtype)
+				m.Id = id
+				q.wire, _ = m.Pack()
+				sc.queries = append(sc.queries, q)
+				sc.breaks = append(sc.breaks, true)
+			}
+		}
+		before := counters.bigOK.Load()
+		playStream(in, res, rng, proto, dial, client, 9000+try, &sc, counters)
+		if counters.bigOK.Load()-before == int64(len(sc.queries)) {
+			return ""
+		}
+	}
+	return "not every large/huge name was answered"
+}
+
+// sweepUDP sends, one exchange at a time so the slabs recycle in order, enough
+// cookie queries to pass a cookie through the writer slot of every slab, then
+// as many cookie-less OPT queries, then as many without OPT: a slot that keeps
+// anything of an earlier request shows it in a later client's reply.
+func sweepUDP(in *engInput, res *vh.Result, rng *rand.Rand, c *udpClient, server *net.UDPAddr, slabCap int) {
+	n := min(max(2*slabCap+4, 12), 80) * in.Sweep
+	seq := 0
+	ask := func(kind, shape string) {
+		if c.idNext >= c.idSpan {
+			return
+		}
+		id := uint16(c.idBase + c.idNext)
+		c.idNext++
+		seq++
+		q := buildQueryOpt(rng, kind, c.idx, seq, 0, id, false, shape)
+		c.mu.Lock()
+		c.out[id] = q
+		c.all = append(c.all, q)
+		c.mu.Unlock()
+		_, _ = c.conn.WriteToUDP(q.wire, server)
+		waitFor(250*time.Millisecond, func() bool { return q.got.Load() > 0 })
+		res.Case("udp/sweep/" + kind + "/" + shape)
+	}
+	for _, shape := range []string{"cookie", "plain", "cookie", "none", "cookie"} {
+		for i := 0; i < n; i++ {
+			kind := "hit"
+			if i%4 == 3 {
+				kind = "miss"
+			}
+			ask(kind, shape)
+			if shape == "cookie" && i%2 == 1 {
+				// interleaved: the very next request on the slab that just served a cookie
+				ask("hit", []string{"plain", "none"}[(i/2)%2])
+			}
+		}
+	}
+}
+
+// sweepStream is the same on one stream connection: sequential exchanges (the
+// job goes back to the ring between them and is taken again) and one pipelined
+// burst (the job is held across the burst).
+func sweepStream(in *engInput, res *vh.Result, rng *rand.Rand, proto string, dial func() (net.Conn, error),
+	client int, alloc func() (uint16, bool), counters *tcpCounters) {
+	shapes := []string{"cookie", "plain", "cookie", "none", "cookie", "plain", "plain", "none", "cookie", "cookie", "plain", "none"}
+	for pass, sequential := range []bool{true, false, true} {
+		var frames []scriptFrame
+		for rep := 0; rep < in.Sweep; rep++ {
+			for i, sh := range shapes {
+				kind := "hit"
+				if (i+pass)%5 == 4 {
+					kind = "miss"
+				}
+				frames = append(frames, scriptFrame{Kind: kind, Sz: "small", Opt: sh, Brk: sequential})
+			}
+		}
+		qs, brk := scriptQueries(rng, frames, client, 8000+pass, alloc)
+		sc := tcpScript{queries: qs, breaks: brk, ending: "read-all", linger: 15 * time.Millisecond,
+			label: "sweep/" + map[bool]string{true: "sequential", false: "pipelined"}[sequential]}
+		playStream(in, res, rng, proto, dial, client, 8000+pass, &sc, counters)
+	}
+}
+
+// playScripts plays every projected TcpConn.tla behaviour on its own connection, a few at a time.
+func playScripts(in *engInput, res *vh.Result, seed int64, proto string, dial func() (net.Conn, error),
+	client int, alloc func() (uint16, bool), counters *tcpCounters) {
+	par := max(in.ScriptPar, 1)
+	var amu sync.Mutex
+	lockedAlloc := func() (uint16, bool) {
+		amu.Lock()
+		defer amu.Unlock()
+		return alloc()
+	}
+	var wg sync.WaitGroup
+	for w := 0; w < par; w++ {
+		wg.Add(1)
+		go func(w int) {
+			defer wg.Done()
+			rng := rand.New(rand.NewSource(seed*977 + int64(w)))
+			for i := w; i < len(in.Scripts); i += par {
+				qs, brk := scriptQueries(rng, in.Scripts[i].Frames, client, i, lockedAlloc)
+				sc := tcpScript{queries: qs, breaks: brk, ending: "read-all", linger: 15 * time.Millisecond,
+					label: "script/" + in.Scripts[i].Fam}
+				playStream(in, res, rng, proto, dial, client, i, &sc, counters)
+			}
+		}(w)
+	}
+	wg.Wait()
+}
 
 func TestEngineLoad(t *testing.T) {
 	var in engInput
@@ -681,7 +1157,9 @@ func TestEngineLoad(t *testing.T) {
 		}()
 	}
 
-	nClients := in.UDPClients + in.TCPClients + 1
+	optCheck.Store(in.OptCheck)
+	// id blocks: UDP clients, TCP clients, then the sweeper, the script player and the primer
+	nClients := in.UDPClients + in.TCPClients + 3
 	idSpan := 65536 / nClients
 	mk := func(idx int) *udpClient {
 		conn, err := net.ListenUDP("udp", &net.UDPAddr{IP: net.IPv4(127, 0, 0, 1)})
@@ -703,7 +1181,7 @@ func TestEngineLoad(t *testing.T) {
 				id := uint16(primer.idBase + primer.idNext)
 				primer.idNext++
 				q := buildQuery(prng, "hit", primer.idx, k, 0, id)
-				q.name, q.qtype = fmt.Sprintf("h-k%d.%s", k, zone), qt
+				q.name, q.qtype, q.ep, q.opt, q.sz = fmt.Sprintf("h-k%d.%s", k, zone), qt, optProfile{}, false, "small"
 				m := new(dns.Msg)
 				m.SetQuestion(q.name, qt)
 				m.Id = id
@@ -718,8 +1196,37 @@ func TestEngineLoad(t *testing.T) {
 			}
 		}
 	}
+	var tc tcpCounters
+	blockAlloc := func(idx int) func() (uint16, bool) {
+		next := 0
+		return func() (uint16, bool) { // wraps: stream ids only have to be unique on their connection
+			next++
+			return uint16(idx*idSpan + (next-1)%idSpan), true
+		}
+	}
+	dialTCP := func() (net.Conn, error) { return net.DialTimeout("tcp", rg.tcp, 3*time.Second) }
+	// the large / huge TXT answers are primed over TCP (a datagram would be truncated), one exchange at a time
+	if why := primeBig(&in, res, prng, "tcp", dialTCP, nClients-1, blockAlloc(nClients-1), &tc); why != "" {
+		res.Skip("priming the large/huge answers: %s", why)
+	}
 	if !waitFor(5*time.Second, rg.srv.Quiesced) {
 		res.Skip("server did not quiesce after priming")
+	}
+	// ---- hygiene sweep: cookie queries over every slab, then cookie-less ones ----
+	if in.Sweep > 0 {
+		sweeper := mk(nClients - 3)
+		sweepUDP(&in, res, rand.New(rand.NewSource(seed*131+7)), sweeper, uaddr, int(st0.UDPSlabCap))
+		close(sweeper.stop)
+		<-sweeper.done
+		_ = sweeper.conn.Close()
+		sweepStream(&in, res, rand.New(rand.NewSource(seed*131+9)), "tcp", dialTCP, nClients-3, blockAlloc(nClients-3), &tc)
+	}
+	// ---- TLC-enumerated size-class / EDNS orders on quiet connections --------------
+	if len(in.Scripts) > 0 {
+		playScripts(&in, res, seed, "tcp", dialTCP, nClients-2, blockAlloc(nClients-2), &tc)
+	}
+	if !waitFor(5*time.Second, rg.srv.Quiesced) {
+		res.Skip("server did not quiesce after the scripted phase")
 	}
 	time.Sleep(50 * time.Millisecond)
 	baseG := runtime.NumGoroutine()
@@ -771,7 +1278,6 @@ func TestEngineLoad(t *testing.T) {
 			bmu.Unlock()
 		}(i, c)
 	}
-	var tc tcpCounters
 	for i := 0; i < in.TCPClients; i++ {
 		wg.Add(1)
 		go func(i int) {
@@ -865,6 +1371,11 @@ func TestEngineLoad(t *testing.T) {
 	res.Count("tcp_complete", int(tc.complete.Load()))
 	res.Count("tcp_cut", int(tc.cut.Load()))
 	res.Count("tcp_stalled", int(tc.stalled.Load()))
+	res.Count("tcp_big_replies_ok", int(tc.bigOK.Load()))
+	if n := bareOPT.Load(); n > 0 {
+		res.Count("opt_in_reply_to_optless_query", int(n))
+		res.DriftNote("%d replies carry a bare OPT although the query had none, e.g. %v", n, bareOPTExample.Load())
+	}
 	res.Count("rcode_failures", int(tc.rcFails.Load()))
 	res.Count("tail_calls", int(rg.tstats.calls.Load()))
 	res.Count("tail_silent", int(rg.tstats.silent.Load()))
